@@ -4,7 +4,8 @@
 EXTENDS Listing
 VARIABLE objs
 Contents == UNION {[1..k -> ObjSpecs] : k \in 0..MaxObjs}
-Init == objs \in Contents
+\* (enumerated per length: TLC builds a UNION eagerly and gives up above a million elements)
+Init == \E k \in 0..MaxObjs : objs \in [1..k -> ObjSpecs]
 Next == UNCHANGED objs
 Spec == Init /\ [][Next]_objs
 Exact == ListingExact(objs)
